@@ -597,6 +597,52 @@ func init() {
 		}
 		return out
 	}
+	symModels["strings.EqualFold"] = func(fr *frame, args []value) value {
+		// one side concrete (ASCII): membership in the case-insensitive regular expression of it
+		x := fr.i.x
+		a, b := args[0], args[1]
+		if _, ok := a.(string); ok {
+			a, b = b, a
+		}
+		c, ok := b.(string)
+		sv, ok2 := a.(sym)
+		if !ok || !ok2 {
+			x.abandon("strings.EqualFold with two symbolic arguments")
+		}
+		if c == "" {
+			return x.mkSym(types.Bool, x.tb.Eq(sv.t, x.tb.StrC("")))
+		}
+		esc := func(ch byte) string {
+			if ch == '"' {
+				return `""`
+			}
+			if ch < 0x20 || ch > 0x7e {
+				x.abandon("strings.EqualFold against a non-ASCII constant")
+			}
+			return string([]byte{ch})
+		}
+		re := "(re.++"
+		for i := 0; i < len(c); i++ {
+			lo, up := c[i], c[i]
+			if lo >= 'A' && lo <= 'Z' {
+				lo += 'a' - 'A'
+			}
+			if up >= 'a' && up <= 'z' {
+				up -= 'a' - 'A'
+			}
+			if lo == up {
+				re += ` (str.to_re "` + esc(lo) + `")`
+			} else {
+				re += ` (re.union (str.to_re "` + esc(lo) + `") (str.to_re "` + esc(up) + `"))`
+			}
+		}
+		if len(c) == 1 {
+			re += ` (str.to_re "")`
+		}
+		re += ")"
+		x.noteAssume("strings.EqualFold model: ASCII case folding only")
+		return x.mkSym(types.Bool, x.tb.InRe(sv.t, re))
+	}
 	symModels["strconv.FormatBool"] = func(fr *frame, args []value) value {
 		// decided (forked) so that the text stays concrete
 		if b, ok := args[0].(bool); ok {
